@@ -212,4 +212,25 @@ def run_spec(p, res):
                             v(clause, f"sigma2={s2} ({form}): received {y:.4f} bit {j}: LLR={lj:.6g}, expected c*(d1^2-d0^2)/sigma^2 = {base:.4g}*({d1:.5g}-{d0:.5g})/{s2} = {want:.6g}", {"y": [y.real, y.imag], "s2": s2, "bit": j})
             if nbad:
                 res.bump("wrong_llrs", nbad)
+    # alternating schemes also accept an un-batched symbol vector for SOFT output (shape (N, 2)): same LLRs as the batched route
+    if kind == "alternating" and base is not None:
+        YY = Ys + Ys[:1] if len(Ys) % 2 else Ys
+        for s2 in (1e-2, 1.0, 10.0):
+            try:
+                dem.reset_state()
+                out = dem(torch.tensor(YY, dtype=torch.complex64), s2)
+            except Exception as e:  # noqa: BLE001
+                v("raises", f"un-batched soft demodulation: {type(e).__name__}: {str(e)[:160]}")
+                break
+            res.transitions += 1
+            llr = out.reshape(-1, b).to(torch.float64).tolist()
+            nbad = 0
+            for (y, tab), L, R in zip(dps, llr, ref):
+                for j, (lj, (d0, d1)) in enumerate(zip(L, R)):
+                    res.ev(1, nontrivial=1, transitions=0)
+                    want = base * (d1 - d0) / s2
+                    if abs(lj - want) > base * (1e-4 * (d0 + d1) + 1e-6) / s2:
+                        nbad += 1
+                        if nbad == 1:
+                            v("llr-form", f"un-batched 1-D input, sigma2={s2}: received {y:.4f} bit {j}: LLR={lj:.6g}, expected {want:.6g}", {"layout": "1d", "s2": s2})
     res.sample({"scheme": scheme, "cfg": cfg, "points_hard": len(Yh), "points_soft": len(Ys), "c": base})
